@@ -184,6 +184,28 @@ struct Sem {
   }
 };
 
+// A second, deliberately different reference for the structured fragment (no labels, jumps or calls): direct recursion
+// over the AST, LOOP = "repeat the body n times" with n read once. Used only to cross-check R-SEM itself.
+struct Denote {
+  std::map<std::string, long long> env; long long fuel; bool stopped = false, out_of_fuel = false, applicable = true;
+  explicit Denote(long long fuel) : fuel(fuel) {}
+  long long val(const Val &v) {
+    switch (v.t) { case Val::VAR: return env[v.var]; case Val::CONST: return v.c; case Val::ADDC: { long long x = env[v.var] + v.c; return x < 0 ? 0 : x; } default: applicable = false; return 0; }
+  }
+  void seq(const std::vector<Stmt> &b) { for (auto &s : b) { if (stopped || out_of_fuel || !applicable) return; stmt(s); } }
+  void stmt(const Stmt &s) {
+    if (!s.labels.empty()) { applicable = false; return; }
+    if (--fuel < 0) { out_of_fuel = true; return; }
+    switch (s.t) {
+      case Stmt::ASSIGN: env[s.var] = val(s.val); break;
+      case Stmt::LOOP: { long long n = env[s.var]; for (long long i = 0; i < n && !stopped && !out_of_fuel && applicable; i++) seq(s.body); break; }
+      case Stmt::WHILE: while (env[s.var] != 0 && !stopped && !out_of_fuel && applicable) { if (--fuel < 0) { out_of_fuel = true; break; } seq(s.body); } break;
+      case Stmt::STOP: stopped = true; break;
+      default: applicable = false;
+    }
+  }
+};
+
 inline bool uses_while_or_goto(const std::vector<Stmt> &b) {
   for (auto &s : b) { if (s.t == Stmt::WHILE || s.t == Stmt::GOTO || s.t == Stmt::IF) return true; if (uses_while_or_goto(s.body)) return true; }
   return false;
